@@ -14,12 +14,14 @@ import (
 func init() {
 	register(&propDef{
 		ID: "C08",
-		Explanation: "Shadowing is implemented by paired Begin/End calls and by Shadow at declaration sites. SCO-PAIR: a depth dataflow over go/cfg of every function that opens scopes: on every path Begin/End are balanced and properly nested (depth agrees at every merge, is never negative, and is zero at every exit, including the breaks that leave a case early). SCO-SWAP: in case func the locals table is saved, replaced by a fresh one before the body is compiled and restored afterwards on every path; c.Returns is pushed and popped; the cases that set c.FuncName restore it. SCO-DECL: a slot of c.Locals keyed by a token's text is obtained with lookup.Index only (a) inside compiler.Shadow, (b) on a path where c.Locals.Exists(key) was tested true (a use), (c) in the freshly installed table of a function (parameters), or with a hidden key built from a position; any other such call declares a script variable without shadowing. SCO-ORDER: name resolution tests function-local type, local, package global, builtin in that order, and import aliases are resolved only when no local of that name exists. Not decided: correctness of lookup.shadow/unshadow/Drop renaming for every depth and order (an algorithmic invariant); 'fresh on every iteration'.",
+		Explanation: "Shadowing is implemented by paired Begin/End calls and by Shadow at declaration sites. SCO-PAIR: a depth dataflow over go/cfg of every function that opens scopes: on every path Begin/End are balanced and properly nested (depth agrees at every merge, is never negative, and is zero at every exit, including the breaks that leave a case early). SCO-SWAP: in case func the locals table is saved, replaced by a fresh one before the body is compiled and restored afterwards on every path; c.Returns is pushed and popped; the cases that set c.FuncName restore it. SCO-DECL: a slot of c.Locals keyed by a token's text is obtained with lookup.Index only (a) inside compiler.Shadow, (b) on a path where c.Locals.Exists(key) was tested true (a use), (c) in the freshly installed table of a function (parameters), or with a hidden key built from a position; any other such call declares a script variable without shadowing. SCO-ORDER: name resolution tests function-local type, local, package global, builtin in that order, and import aliases are resolved only when no local of that name exists. Not decided: correctness of lookup.shadow/unshadow/Drop renaming for every depth and order (an algorithmic invariant); 'fresh on every iteration'. SCO-BLOCK: every body block (then/else, for/range body, case/default body) is compiled between its own Begin and End. SCO-CHAIN: order facts that make the ~-chain of lookup.shadow/unshadow/Drop a stack (recurse-then-store in shadow; store-then-recurse, no clobber of ~key after the recursion in unshadow; delete-then-unshadow in Drop).",
 		Quick: []ruleDef{
 			{"SCO-PAIR", 1, ruleScoPair},
 			{"SCO-SWAP", 5, ruleScoSwap},
 			{"SCO-DECL", 4, ruleScoDecl},
 			{"SCO-ORDER", 4, ruleScoOrder},
+			{"SCO-BLOCK", 6, ruleScoBlock},
+			{"SCO-CHAIN", 6, ruleScoChain},
 		},
 	})
 }
@@ -435,5 +437,240 @@ func ruleScoOrder(c *Ctx, r *R) {
 		if n == 0 {
 			r.undecided("import-alias", c.Pos(dsc.Clause), "no path resolves an import alias")
 		}
+	}
+}
+
+// SCO-BLOCK: every body block of a control construct is compiled in a scope of its
+// own: the compilation of a then/else branch, a loop body, a case body or the default
+// body is immediately bracketed by Begin ... End, with no other segment compiled inside
+// the bracket.  (A function body shares the function block with its parameters, as in Go.)
+func ruleScoBlock(c *Ctx, r *R) {
+	cs, err := c.compileSwitch()
+	if err != nil {
+		r.undecided("compile", "-", err.Error())
+		return
+	}
+	bodyRoles := map[string]map[string]bool{
+		"if":     {"then": true, "else": true},
+		"for":    {"block": true},
+		"range":  {"block": true},
+		"switch": {"caseBody": true, "default": true},
+	}
+	for _, k := range []string{"if", "for", "range", "switch"} {
+		sc := cs.ByLabel[k]
+		if sc == nil {
+			r.undecided(k, "-", "no compile-case")
+			continue
+		}
+		m := newLayMachine(c)
+		cl, err := m.runCase(cs, k)
+		if err != nil {
+			r.undecided(k, c.Pos(sc.Clause), err.Error())
+			continue
+		}
+		var states []*State
+		for _, p := range cl.Paths {
+			states = append(states, p.St)
+		}
+		for _, it := range cl.Iters {
+			for _, ex := range it.Exits {
+				states = append(states, ex.St)
+			}
+		}
+		seen := map[string]bool{}
+		for _, st := range states {
+			type ev struct {
+				kind, role string
+				node       ast.Node
+			}
+			var evs []ev
+			for _, e := range st.Eff {
+				if e.Kind != "call" || e.Value == nil {
+					continue
+				}
+				switch e.Value.Name {
+				case "compiler.Begin":
+					evs = append(evs, ev{"B", "", e.Node})
+				case "compiler.End":
+					evs = append(evs, ev{"E", "", e.Node})
+				case "compiler.compile", "compiler.compileAll":
+					role := ""
+					if p := childPath(e.Value); p != nil {
+						role = roleTable[k][strings.Join(p, "/")]
+					}
+					evs = append(evs, ev{"C", role, e.Node})
+				}
+			}
+			for i, e := range evs {
+				if e.kind != "C" || !bodyRoles[k][e.role] {
+					continue
+				}
+				key := k + " " + e.role
+				ok := i > 0 && evs[i-1].kind == "B" && i+1 < len(evs) && evs[i+1].kind == "E"
+				if seen[key] && ok {
+					continue
+				}
+				seen[key] = true
+				r.check(ok, key, c.Pos(e.node), "compiled in its own scope (Begin immediately before, End immediately after)",
+					fmt.Sprintf("compile(%q) compiles its %s block without a scope of its own: a := or var in that block reuses (or keeps visible) a name of the enclosing header or of a sibling block instead of shadowing it until the block ends (e.g. `for i := 0; i < 3; i++ { i := 10 }` overwrites the loop variable)", k, e.role))
+			}
+		}
+		for role := range bodyRoles[k] {
+			if !seen[k+" "+role] {
+				r.undecided(k+" "+role, c.Pos(sc.Clause), "the compilation of this block was not found on any path")
+			}
+		}
+	}
+}
+
+// SCO-CHAIN: the shadow chain of a name (key, "~"+key, "~~"+key, ...) is a stack kept in
+// the map itself.  shadow pushes (every entry moves one "~" deeper, deepest first);
+// unshadow pops (every entry moves one "~" up, shallowest first).  The recursive call on
+// "~"+key rewrites the entry "~"+key, so the order of the map operations around it is
+// what makes the chain a stack:
+//   shadow:   recurse on "~"+key, THEN store map["~"+key] = old map[key], and vacate key;
+//   unshadow: store map[key] = map["~"+key], THEN recurse on "~"+key; nothing may delete
+//             or overwrite "~"+key after that recursion (it holds the next binding), and
+//             nothing may delete key after the store;
+//   Drop:     delete the dropped key BEFORE unshadow(key) restores the outer binding.
+func ruleScoChain(c *Ctx, r *R) {
+	type ev struct {
+		kind string // store delete rec
+		key  string
+		node ast.Node
+	}
+	events := func(p *State, self string) []ev {
+		var out []ev
+		for _, e := range p.Eff {
+			switch e.Kind {
+			case "store":
+				if e.Target != nil && e.Target.Op == "index" && strings.HasSuffix(e.Target.Args[0].String(), ".keyToIndex") {
+					out = append(out, ev{"store", e.Target.Args[1].String(), e.Node})
+				}
+			case "call":
+				if e.Value == nil {
+					continue
+				}
+				switch e.Value.Name {
+				case "builtin.delete":
+					if len(e.Value.Args) == 2 && strings.HasSuffix(e.Value.Args[0].String(), ".keyToIndex") {
+						out = append(out, ev{"delete", e.Value.Args[1].String(), e.Node})
+					}
+				case self:
+					out = append(out, ev{"rec", e.Value.Args[len(e.Value.Args)-1].String(), e.Node})
+				case "lookup.unshadow", "lookup.shadow":
+					out = append(out, ev{"call:" + e.Value.Name, e.Value.Args[len(e.Value.Args)-1].String(), e.Node})
+				}
+			}
+		}
+		return out
+	}
+	const deep = `("~" + key)`
+	idx := func(evs []ev, kind, key string) int {
+		for i, e := range evs {
+			if e.kind == kind && e.key == key {
+				return i
+			}
+		}
+		return -1
+	}
+	// ---- shadow ----
+	if fd := c.Func("lookup.shadow"); fd != nil {
+		ps := c.pathsOf("lookup.shadow")
+		found := false
+		for _, p := range ps {
+			cs := condStrings(p)
+			evs := events(p, "lookup.shadow")
+			if strings.HasPrefix(cs, "!") || cs == "" {
+				r.check(len(evs) == 0 || cs == "", "shadow absent", c.Pos(fd), "no effect when the name is not bound", "lookup.shadow changes the table although the name is not bound")
+				continue
+			}
+			found = true
+			rec, st, del := idx(evs, "rec", deep), idx(evs, "store", deep), idx(evs, "delete", "key")
+			r.check(rec >= 0 && st >= 0 && rec < st, "shadow push-order", c.Pos(fd), "recurse on \"~\"+key, then store map[\"~\"+key]",
+				"lookup.shadow does not move the deeper bindings out of the way (recursive call on \"~\"+key) before it stores the current binding under \"~\"+key: with two or more live shadowings the middle binding is overwritten and the wrong variable is visible after the inner block ends")
+			r.check(del >= 0, "shadow vacate", c.Pos(fd), "the plain key is vacated", "lookup.shadow leaves the old binding under the plain name: the new declaration reuses the outer variable's slot instead of getting its own")
+			for i, e := range evs {
+				if i != rec && i != st && i != del {
+					r.fail("shadow extra", c.Pos(e.node), "lookup.shadow performs an additional table operation ("+e.kind+" "+e.key+") outside the push protocol")
+				}
+			}
+		}
+		if !found {
+			r.undecided("shadow", c.Pos(fd), "no path on which the name is bound")
+		}
+	} else {
+		r.undecided("shadow", "-", "lookup.shadow not found")
+	}
+	// ---- unshadow ----
+	if fd := c.Func("lookup.unshadow"); fd != nil {
+		ps := c.pathsOf("lookup.unshadow")
+		found := false
+		for _, p := range ps {
+			cs := condStrings(p)
+			evs := events(p, "lookup.unshadow")
+			if strings.HasPrefix(cs, "!") || cs == "" {
+				bad := idx(evs, "store", "key") >= 0
+				r.check(!bad, "unshadow absent", c.Pos(fd), "nothing restored when there is no outer binding", "lookup.unshadow stores a binding for the name although no outer binding exists")
+				continue
+			}
+			found = true
+			st, rec := idx(evs, "store", "key"), idx(evs, "rec", deep)
+			r.check(st >= 0 && rec >= 0 && st < rec, "unshadow pop-order", c.Pos(fd), "store map[key] = map[\"~\"+key], then recurse on \"~\"+key",
+				"lookup.unshadow does not restore the outer binding (map[key] = map[\"~\"+key]) before moving the deeper ones up: the binding it restores is the wrong one")
+			for i, e := range evs {
+				if i == st || i == rec {
+					continue
+				}
+				switch {
+				case (e.kind == "delete" || e.kind == "store") && e.key == deep && rec >= 0 && i > rec:
+					r.fail("unshadow clobber", c.Pos(e.node), "lookup.unshadow "+e.kind+"s the entry \"~\"+key after the recursive call that has just moved the next outer binding into it: with a name shadowed twice (three live bindings) the middle binding is lost when the innermost block ends, and after the middle block ends the name is unbound or refers to the wrong slot")
+				case e.kind == "delete" && e.key == "key" && st >= 0 && i > st:
+					r.fail("unshadow clobber", c.Pos(e.node), "lookup.unshadow deletes the binding it has just restored")
+				case e.kind == "store" && e.key == "key" && i != st:
+					r.fail("unshadow clobber", c.Pos(e.node), "lookup.unshadow stores the plain name twice")
+				}
+			}
+		}
+		if !found {
+			r.undecided("unshadow", c.Pos(fd), "no path on which an outer binding exists")
+		}
+	} else {
+		r.undecided("unshadow", "-", "lookup.unshadow not found")
+	}
+	// ---- Drop ----
+	if fd := c.Func("lookup.Drop"); fd != nil {
+		ps := c.pathsOf("lookup.Drop", bodyOnce)
+		good, seen := true, false
+		for _, p := range ps {
+			evs := events(p, "-")
+			un := -1
+			for i, e := range evs {
+				if e.kind == "call:lookup.unshadow" {
+					un = i
+				}
+			}
+			if un < 0 {
+				continue
+			}
+			seen = true
+			del := -1
+			for i, e := range evs {
+				if e.kind == "delete" && e.key == evs[un].key {
+					del = i
+				}
+			}
+			if del < 0 || del > un {
+				good = false
+			}
+		}
+		if !seen {
+			r.undecided("drop order", c.Pos(fd), "no path of lookup.Drop calls unshadow")
+		} else {
+			r.check(good, "drop order", c.Pos(fd), "the dropped name is deleted before unshadow restores the outer binding",
+				"lookup.Drop deletes the dropped name after (or without) unshadow: the outer binding that unshadow has just restored is removed, so after a block ends the shadowed outer variable is undefined")
+		}
+	} else {
+		r.undecided("drop order", "-", "lookup.Drop not found")
 	}
 }
